@@ -143,11 +143,34 @@ def step_trace(d, ev) -> tuple:
     return (canon_interp(d.interp), acts, type(err).__name__ if err else None)
 
 
+_UUID_RE = __import__("re").compile(r"[0-9a-f]{8}-[0-9a-f]{4}-[0-9a-f]{4}-[0-9a-f]{4}-[0-9a-f]{12}|uuid#\d+")
+
+
+def strip_uuid_text(text: str) -> str:
+    return _UUID_RE.sub("*", text)
+
+
+def only_unswept_finished_children(orig: tuple, rest: tuple) -> bool:
+    """True when two step traces differ ONLY in that the restored interpreter still lists child actors that have finished
+    (status done / stopped) - with their systemIds - which the uninterrupted run has already unregistered."""
+    (so, ao, eo), (sr, ar, er) = orig, rest
+    if ao != ar or eo != er or so[:6] != sr[:6]:
+        return False
+    act_o, act_r = dict(so[6]), dict(sr[6])
+    extra = {aid: c for aid, c in act_r.items() if aid not in act_o}
+    if not extra or any(act_r.get(a) != c for a, c in act_o.items()) or any(c[2] not in ("done", "stopped") for c in extra.values()):
+        return False
+    sys_o, sys_r = dict(so[7]), dict(sr[7])
+    return all(sys_r.get(k) == v for k, v in sys_o.items()) and all(v in extra for k, v in sys_r.items() if k not in sys_o)
+
+
 def explore_machine(cfg, events: List[str], label: str, services=None, max_depth_actor: Optional[int] = None, guards=None):
     res = dict(states=0, transitions=0, executions=0, distinct_count=0, violations=[], samples=[], caps=[])
     for engine in ENGINES:
-        h = Harness(cfg, with_plugin=True, services=services, threads=True, extra_guards=guards)
-        h2 = Harness(cfg, with_plugin=True, services=services, threads=True, extra_guards=guards)
+        # (30 virtual ms pass after every operation: the runner thread of a superseded or stopped actor gets past its poll
+        # and runs its clean-up before the snapshot is taken)
+        h = Harness(cfg, with_plugin=True, services=services, threads=True, extra_guards=guards, tick=0.03)
+        h2 = Harness(cfg, with_plugin=True, services=services, threads=True, extra_guards=guards, tick=0.03)
         viol: List[Dict[str, Any]] = []
 
         def flag(clause, detail, hist, ev=None):
@@ -205,7 +228,9 @@ def explore_machine(cfg, events: List[str], label: str, services=None, max_depth
                     r2.close()
                 res["executions"] += 3
                 res["transitions"] += 1
-                if t_orig != t_rest:
+                if t_orig != t_rest and only_unswept_finished_children(t_orig, t_rest):
+                    flag("restored-child-not-unregistered-when-it-finishes", f"event {ev}: original {t_orig} restored {t_rest}", hist, ev)
+                elif t_orig != t_rest:
                     flag("continuation-differs", f"event {ev}: original {t_orig} restored {t_rest}", hist, ev)
                 elif t_orig != t_rest2:
                     flag("continuation-differs-after-two-cycles", f"event {ev}: original {t_orig} restored twice {t_rest2}", hist, ev)
@@ -226,8 +251,17 @@ def explore_machine(cfg, events: List[str], label: str, services=None, max_depth
                 return events
             return events
 
+        def canon(d):
+            # two histories are merged only when their SNAPSHOTS agree as well (generated ids stripped): the snapshot is
+            # what the restored futures depend on, and it holds fields the live canonical state does not (actor sources)
+            try:
+                snap_key = strip_uuid_text(d.interp.get_snapshot())
+            except Exception as exc:  # noqa: BLE001
+                snap_key = repr(exc)
+            return (d.observe(), snap_key)
+
         try:
-            cl = bfs(h, engine, menu, on_state, on_step, max_states=3000)
+            cl = bfs(h, engine, menu, on_state, on_step, max_states=3000, canon=canon)
         except Budget:
             continue
         res["states"] += cl.states
@@ -379,6 +413,14 @@ def units(tier: str) -> List[Any]:
 
 
 def run_unit(unit):
+    res = _run_unit(unit)
+    for v in res.get("violations", []):
+        if isinstance(v.get("replay"), dict) and v["replay"].get("kind") == "bisim":
+            v["replay"]["unit"] = list(unit)
+    return res
+
+
+def _run_unit(unit):
     kind, payload = unit
     if kind in ("tree", "tree-rev"):
         cfg, nodes, events = F.universal_config(payload, reenter_all=False, naming="prefix" if kind == "tree" else "reversed")
@@ -408,4 +450,14 @@ def replay(payload):
         print("  accepted:", canon_interp(r.interp)[:3])
         r.close()
         return []
+    if payload["kind"] == "bisim" and payload.get("unit"):
+        from .c01 import _tuplify
+
+        unit = _tuplify(payload["unit"])
+        res = run_unit((unit[0], unit[1]))
+        out = [v for v in res["violations"] if v["replay"]["hist"] == payload["hist"] and v["replay"]["engine"] == payload["engine"]
+               and v["replay"].get("ev") == payload.get("ev")]
+        for v in out:
+            print("  ", v["what"][:400])
+        return out
     return []
